@@ -1122,6 +1122,118 @@ def validate_dispersive_divisor_stability(
         warnings.warn(detail, UserWarning, stacklevel=2)
 
 
+def _coupled_dispersive_stability_measure(mat: Material, dt: float, courant_factor: float) -> tuple[float, int]:
+    r"""Stability measure of the coupled Yee + ADE update for a cell filled with ``mat``.
+
+    The forward bound ``omega_0 * dt < 2`` only covers the polarization recurrence on
+    its own. Coupled to the Yee update, the grid-Nyquist mode (sign flip from cell to
+    cell, curl-curl eigenvalue ``4 * courant_factor**2``) of a homogeneous medium obeys a
+    linear recurrence whose characteristic polynomial changes sign at ``z = -1`` — i.e.
+    has a real root ``z < -1`` and grows exponentially, independent of the damping —
+    exactly when
+
+    .. math::
+        \frac{S^2}{\varepsilon_\infty \mu}
+        + \frac{1}{\varepsilon_\infty} \sum_p \frac{c_{3,p} - c_{4,p}}{1 + c_{1,p} - c_{2,p}} > 1,
+        \qquad \frac{c_3 - c_4}{1 + c_1 - c_2}
+        = \frac{K \Delta t^2 - 2 b \Delta t}{4 - \omega_0^2 \Delta t^2}
+
+    with ``S = courant_factor``. For a Drude pole the second term is
+    ``(omega_p * dt)**2 / (4 * eps_inf)``, so metals with ``eps_inf`` close to 1 need a
+    ``courant_factor`` well below 1. Conductivity does not enter (its factor cancels at
+    ``z = -1``).
+
+    Args:
+        mat: A dispersive material (``mat.dispersion`` must not be ``None``).
+        dt: Simulation time step (seconds).
+        courant_factor: The configured ``courant_factor``.
+
+    Returns:
+        tuple: ``(measure, worst_axis)`` — the largest value of the left-hand side over
+        the three grid axes (stable iff ``< 1``) and the axis at which it occurs.
+    """
+    assert mat.dispersion is not None
+    poles = mat.dispersion.poles
+    c1, c2, c3, c4 = compute_pole_coefficients_tensor(poles, dt)
+    eps_inf = (mat.permittivity[0], mat.permittivity[4], mat.permittivity[8])
+    mu = (mat.permeability[0], mat.permeability[4], mat.permeability[8])
+    inv_mu = max((1.0 / m for m in mu if m > 0.0), default=1.0)
+    worst, worst_ax = -math.inf, 0
+    for ax in range(3):
+        if eps_inf[ax] <= 0.0:
+            continue
+        coupling = 0.0
+        for i, p in enumerate(poles):
+            if p.is_oriented:
+                # 1D oscillator along u: a field along u sees the full coupling K
+                num = float(c3[i, 0] + c3[i, 4] + c3[i, 8])
+            else:
+                num = float(c3[i, 4 * ax] - c4[i, 4 * ax])
+            if num == 0.0:
+                continue
+            coupling += num / float(1.0 + c1[i, ax] - c2[i, ax])
+        measure = (courant_factor**2 * inv_mu + coupling) / eps_inf[ax]
+        if measure > worst:
+            worst, worst_ax = measure, ax
+    return worst, worst_ax
+
+
+def validate_dispersive_coupled_stability(
+    materials: dict[str, Material],
+    dt: float,
+    courant_factor: float,
+    margin: float = 0.01,
+) -> None:
+    r"""Warn about dispersive materials at or beyond the coupled Yee + ADE stability limit.
+
+    :func:`fdtdx.dispersion.compute_pole_coefficients_per_axis` enforces
+    ``omega_0 * dt < 2``, which keeps the polarization recurrence stable in isolation
+    (and never binds for Drude poles, ``omega_0 = 0``). The field and the polarization
+    are updated together, though, and the coupled update is stable only while the measure
+    of :func:`_coupled_dispersive_stability_measure` stays below 1. Beyond it the grid-Nyquist
+    mode grows exponentially (no damping helps); just below it the transient gain
+    (``~ 1 / (1 - measure)``) becomes large.
+
+    Args:
+        materials: Mapping of label -> :class:`Material` for every material in the
+            simulation. Labels appear verbatim in the warning messages.
+        dt: Simulation time step (seconds).
+        courant_factor: The configured ``courant_factor``.
+        margin: Warn when ``measure > 1 - margin``.
+    """
+    for name, mat in materials.items():
+        if mat.dispersion is None or mat.dispersion.num_poles == 0:
+            continue
+        measure, worst_ax = _coupled_dispersive_stability_measure(mat, dt, courant_factor)
+        if not measure > 1.0 - margin:
+            continue
+        # dt is proportional to courant_factor: bisect the scale s with measure(s) = 1 - margin
+        lo, hi = 0.0, 1.0
+        for _ in range(50):
+            mid = 0.5 * (lo + hi)
+            m_mid, _ = _coupled_dispersive_stability_measure(mat, mid * dt, mid * courant_factor)
+            if m_mid > 1.0 - margin:
+                hi = mid
+            else:
+                lo = mid
+        cf_max = lo * courant_factor
+        if cf_max > 0.0:
+            scale = 10.0 ** (math.floor(math.log10(cf_max)) - 2)
+            cf_max = math.floor(cf_max / scale) * scale
+        axis_note = f" on axis {'xyz'[worst_ax]}" if not (mat.is_all_isotropic and mat.dispersion.is_isotropic) else ""
+        state = "exceeds" if measure > 1.0 else "is close to"
+        warnings.warn(
+            f"Dispersive material '{name}' {state} the stability limit of the coupled field/polarization "
+            f"update{axis_note}: courant_factor^2 / (eps_inf * mu) + sum_p (c3 - c4) / (eps_inf * (1 + c1 - c2)) "
+            f"= {measure:.4g} (must stay below 1; for a Drude pole the sum is (omega_p * dt)^2 / (4 * eps_inf)). "
+            "Above 1 the grid-Nyquist mode grows exponentially regardless of damping; close to 1 the transient "
+            f"gain (~1 / (1 - value)) is large. Lower courant_factor to <= {cf_max:.3g} "
+            f"(currently {courant_factor:.3g}) or refine the grid.",
+            UserWarning,
+            stacklevel=2,
+        )
+
+
 def compute_ordered_names(
     materials: dict[str, Material],
 ) -> list[str]:
